@@ -194,15 +194,26 @@ func init() {
 				}
 				bt.add(mk(key, gen.UnixSeconds(rng, p), p, d, a, rng.Intn(40) == 0))
 			}
+			// daylight-saving switches of real zones (incl. the repeated hour): the code depends on the Unix second only
+			for i := 0; i < c.N(20000, 400000); i++ {
+				at := rng.TransitionInstant()
+				p := gen.Pick(rng, []uint64{30, 30, 60, 0, 1, 3600, 1800, 7200})
+				k := mk(rng.Bytes(20), at.Unix, p, 1+rng.Intn(10), rng.Intn(3), false)
+				k.At = at
+				bt.add(k)
+			}
 			bt.flush()
 			// one second, many renderings
 			var groups []sameSecondCase
 			for i := 0; i < c.N(3000, 50000); i++ {
 				p := gen.Period(rng)
 				base := mk(rng.Bytes(20), gen.UnixSeconds(rng, p), p, 6+rng.Intn(5), rng.Intn(3), false)
+				if i%3 == 0 {
+					base.At.Unix = rng.TransitionInstant().Unix
+				}
 				g := sameSecondCase{Base: base}
 				for _, ns := range []int64{0, 1, 500000000, 999999999} {
-					for z := 0; z < 5; z++ {
+					for z := 0; z < gen.NZones(); z++ {
 						g.Specs = append(g.Specs, gen.InstantSpec{Unix: base.At.Unix, Ns: ns, Zone: z, Mono: (z+int(ns))%2 == 0})
 					}
 				}
